@@ -22,13 +22,14 @@ ASSUMPTIONS = ['exactq / exact_extra (Python int arithmetic) are correct',
                'larger powers are observed, not asserted',
                '"a few units in the last place" for quotients/reciprocals/negative powers is fixed at |got-q| <= 4*2^-p*|q| (DESIGN section 3/C04)']
 SHARD_TIMEOUT = {'quick': 300, 'thorough': 2400}
-LEVEL_TEXT = ('exploration: ~3*10^5 (quick) / ~6*10^6 (thorough) generated complex operations on the real code, each component compared '
+LEVEL_TEXT = ('exploration: ~2.3*10^5 (quick) / ~2.5*10^6 (thorough) generated complex operations on the real code, each component compared '
               'bit-for-bit with the correct rounding of the exact component (sums, products, Gaussian-integer powers); quotients and '
               'negative powers decided exactly against 4*2^-p relative modulus error')
 LEVEL_NOTE = 'trusted base: vf/exactq.py + vf/exact_extra.py (integer arithmetic only); inputs not generated are not covered'
 TECHNIQUE = 'runtime reference-model monitor: exact rational oracle on every observed complex arithmetic result'
 
-CASES = {'quick': 18000, 'thorough': 420000}
+CASES = {'quick': 18000, 'thorough': 200000}
+_BIG = 0.0              # share of precisions drawn from the 2500..3500 list (thorough tier only)
 OPS = ['add', 'sub', 'mul', 'mulcancel', 'addr', 'subr', 'rsubr', 'mulr', 'pow', 'powaxis', 'powedge', 'div', 'rdiv', 'divr',
        'recip', 'negpow', 'eq', 'exactkw', 'square']
 POW_ENVELOPE = 9000
@@ -354,7 +355,7 @@ def check_quot(mp, rec, r, cell, kind, z, w, n, p, mode, via):
         if kind == 'negpow':
             key = 'C04/negpow/' + negpow_path(w, n)
             severity = negpow_severity(got, Nr, Ni, Dn, eq, p, w, n, err)
-            rec.maximum('negative powers on the log-exp path: error of the exponent n*log(z), units of 2^-p, per unit of n*(|log2|z||+2)',
+            rec.maximum('negative powers on the log-exp path: log2 of [error of the exponent n*log(z) in units of 2^-p per unit of n*(|log2|z||+2)]',
                         severity, case)
         else:
             key = 'C04/' + kind
@@ -373,15 +374,13 @@ def negpow_path(w, n):
 
 
 def negpow_severity(got, Nr, Ni, Dn, eq, p, w, n, err):
-    """error of the computed exponent n*log(z) in units of 2^-p, normalised by n*(|log2|z||+2): the a-priori
-    model of the log-exp path is (a few)*|n log z|*2^-(p+14), i.e. a normalised value of about 1e-4"""
+    """log2 of [error of the computed exponent n*log(z) in units of 2^-p, divided by n*(|log2|z||+2)]: the a-priori
+    model of the log-exp path is (a few)*|n log z|*2^-(p+14), i.e. a normalised value of about 2^-13"""
     l2rel = quot_err.log2 - p                    # log2 of the relative modulus error
     logerr = l2rel * math.log(2) if l2rel > 60 else math.log1p(2.0 ** l2rel)
     mag = max(t[2] + t[3] for t in w if t[1])
     norm = n * (abs(mag) + 2)
-    if p > 1000:
-        return logerr / norm * 2.0 ** 1000
-    return logerr * 2.0 ** p / norm
+    return math.log2(logerr) + p - math.log2(norm)          # log2 of the normalised error (about -13 for the model)
 
 
 # ---------------------------------------------------------------------------------------
@@ -458,7 +457,7 @@ def pick_via(r, mode, i):
 def run_case(mp, rec, r, i):
     op = OPS[i % len(OPS)]
     mode = G.MODES[(i // len(OPS)) % 5]
-    p = G.pick_prec(r, big=False)
+    p = G.pick_prec(r, big=(_BIG > 0 and r.random() < _BIG))
     via = pick_via(r, mode, i)
     if op in ('add', 'sub', 'mul'):
         if op in ('add', 'sub') and r.random() < 0.6:
@@ -554,6 +553,9 @@ def run_case(mp, rec, r, i):
 
 
 def run_shard(shard, rec):
+    global _BIG
+    if shard.get('tier') == 'thorough':
+        _BIG = 0.12
     mp = _mp()
     r = G.rng(PROP, shard['seed'], shard['shard'])
     from vf.instrument import AnchorCount
